@@ -24,6 +24,7 @@ import (
 	"sync"
 	"time"
 
+	"github.com/IrineSistiana/mosdns/v5/pkg/verifhook"
 	"go.uber.org/zap"
 )
 
@@ -74,6 +75,7 @@ func (t *PipelineTransport) ExchangeContext(ctx context.Context, m []byte) (*[]b
 	const maxRetry = 2
 	retry := 0
 	for {
+		verifhook.Point("pipeline.attempt")
 		dc, isNewConn, err := t.getReservedExchanger()
 		if err != nil {
 			return nil, err
@@ -137,6 +139,7 @@ func (t *PipelineTransport) getReservedExchanger() (_ ReservedExchanger, isNewCo
 	// Dial a new connection
 	if rxc == nil {
 		c := newLazyDnsConn(t.dialFunc, t.dialTimeout, t.maxLazyConnQueue, t.logger)
+		verifhook.Point("pipeline.conn.created")
 		rxc, _ = c.ReserveNewQuery() // ignore the closed error for new lazy connection
 		isNewConn = true
 		t.conns[c] = struct{}{}
